@@ -61,6 +61,19 @@ def cascade (ds : List WValue) : WValue := ds.foldl insert WValue.zero
 /-- `tree.match{selector, declarations}` = validation.KeyedDeclarations -/
 abbrev Match := List Sel × List Decl
 
+/-- The selector list of a nested rule as PreprocessDeclarationsPrelude builds it: every `&` token
+    becomes `:is(parent)`; if the prelude has no `&` at all, `:is(parent)` + whitespace is put in
+    front of the *prelude* — i.e. of its first selector only. Every other selector without `&`
+    reaches selector.ParseGroup as written (a top-level selector). -/
+def nestSelectorsFrom (parent : List Sel) (hasNesting : Bool) : Bool → List Sel → List Sel
+  | _, [] => []
+  | first, s :: rest =>
+    (if s.amp || (!hasNesting && first) then { s with spec := addSpec (maxSpec parent) s.spec }
+     else { s with ok := s.bare }) :: nestSelectorsFrom parent hasNesting false rest
+
+def nestSelectors (parent : List Sel) (sels : List Sel) : List Sel :=
+  nestSelectorsFrom parent (sels.any (·.amp)) true sels
+
 /-! PreprocessDeclarationsPrelude: for each content item — a nested rule appends its own (recursive)
     result to `out` at once, a declaration is appended to `ownDecls`; after the loop
     `out = append(out, KeyedDeclarations{selectors, ownDecls})`.  The pair is (out, ownDecls). -/
@@ -68,8 +81,8 @@ mutual
 def flattenItem (sels : List Sel) : Body → List Match × List Decl
   | .decl d => ([], [d])
   | .nested ns nb =>
-    let r := flattenBody (nestSels sels ns) nb
-    (r.1 ++ [(nestSels sels ns, r.2)], [])
+    let r := flattenBody (nestSelectors sels ns) nb
+    (r.1 ++ [(nestSelectors sels ns, r.2)], [])
 def flattenBody (sels : List Sel) : List Body → List Match × List Decl
   | [] => ([], [])
   | b :: rest =>
